@@ -15,7 +15,7 @@ LEVEL_TEXT = ('Histories are unbounded; decided is history-independence for all 
 LEVEL_NOTE = ('Trusted: front-end, interpreter (class table, properties, super()), the stub of configuration loading (attributes initialised as __init__/reinit do). Not decided: sequences longer than 2, array aliasing effects, '
               'the layered model\'s numerical cascade (rheology/Cython models), thermal state (temperature) updates.')
 EXPLANATION = ('R13.3 history independence on the abstract object graph (single mutators and pairs) for CPL and CTL; R13.2 guard implication in update routines of the tidal classes; '
-               'R13.4 flag plumbing: each mutator reaches the tides update with the flag of what it changed; R13.5 late-binding closures.')
+               'R13.4 flag plumbing: each mutator reaches the tides update with the flag of what it changed; R13.5 late-binding closures; R13.6 a fully updated world equals the functional API at that state.')
 
 QUANT = ('_tidal_heating_global', '_dUdM', '_dUdw', '_dUdO', '_tidal_susceptibility')
 
@@ -182,9 +182,47 @@ def run(chk):
                 inst = f'{model}: after {" ; ".join(seq)} every exposed tidal quantity equals that of a fresh world in the final state'
                 chk.ob('R13.3', inst, not bad, '; '.join(bad[:4]), where_t, key=f'R13.3|{model}|{"+".join(seq)}', method='abstract object graph + GF(p^2) PIT')
     chk.note_analysed('mutator_sequences', nseq)
+    functional_api(chk, repo, d)
     plumbing(chk, repo)
-    chk.floor('R13.3', 25); chk.floor('R13.5', 1); chk.floor('R13.2', 3); chk.floor('R13.4', 6)
+    chk.floor('R13.3', 25); chk.floor('R13.5', 1); chk.floor('R13.2', 3); chk.floor('R13.4', 6); chk.floor('R13.6', 4)
     chk.assume('world attached to an orbit with a tidal host; spin not forced synchronous; numeric state arbitrary (symbolic)')
+
+
+# ------------------------------------------------------------------------------------------------ R13.6
+def functional_api(chk, repo, d):
+    """a freshly updated world reports what the functional API gives for the same state"""
+    mm = repo.by_path('TidalPy/tides/modes/mode_manipulation.py'); mdis = repo.by_path('TidalPy/tides/dissipation.py'); mg = repo.by_path('TidalPy/tides/methods/global_approx.py')
+    mc = repo.by_path('TidalPy/tides/ctl_funcs/ctl_funcs.py'); mconv = repo.by_path('TidalPy/utilities/conversions/conversions.py')
+    for use_ctl in (False, True):
+        for obliq_on in (True, False):
+            it = make_interp(repo)
+            st = state_atoms('0')
+            s = build(repo, it, st, use_ctl, obliq_on)
+            full_init(it, s)
+            call(it, s.world, 'orbit_spin_changed', orbital_freq_changed=True, spin_freq_changed=True, eccentricity_changed=True, obliquity_changed=True)
+            got = exposed(s)
+            # functional pipeline (as toolbox.quick_tides composes it)
+            itf = Interp(repo)
+            n = itf.call(mconv, need_func(mconv, 'semi_a2orbital_motion'), [st['a'], st['M_host'], st['M_world']])
+            fm = itf.call(mm, need_func(mm, 'find_mode_manipulators'), [2, 2, obliq_on])
+            sus = itf.call(mdis, need_func(mdis, 'calc_tidal_susceptibility'), [st['M_host'], st['R'], st['a']])
+            er = itf.call(fm[2].mod, fm[2].node, [st['e']])
+            ob = itf.call(fm[3].mod, fm[3].node, [st['obl'] if obliq_on else X.ZERO])
+            uniq, terms = itf.call(mm, need_func(mm, 'calculate_terms'), [st['spin'], n, st['a'], st['R'], er, ob], {'multiply_modes_by_sign': True})
+            if use_ctl:
+                love = itf.call(mg, need_func(mg, 'ctl_neg_imk_helper_func'), [uniq, st['k2'], FuncRef(mc, need_func(mc, 'linear_dt')), (st['dt'],)])
+            else:
+                love = itf.call(mg, need_func(mg, 'cpl_neg_imk_helper_func'), [uniq, st['k2'], st['Q']])
+            out = itf.call(mm, need_func(mm, 'collapse_modes'), [st['g'], st['R'], st['rho'], X.ONE, st['tscale'], st['M_host'], sus, love, terms, 2], {'cpl_ctl_method': True})
+            ref = {'_tidal_heating_global': out[0], '_dUdM': out[1], '_dUdw': out[2], '_dUdO': out[3], '_tidal_susceptibility': sus, 'n': n}
+            bad = []
+            for q, rv in ref.items():
+                gv = got.get(q)
+                if not isinstance(gv, X.Node) or not d.equal(gv, rv):
+                    bad.append(f'{q.lstrip("_")}: {"unset" if gv is None else d.describe(gv, rv)}')
+            model = ('CTL' if use_ctl else 'CPL') + (', obliquity tides on' if obliq_on else ', obliquity tides off')
+            chk.ob('R13.6', f'{model}: a fully updated world reports the values of the functional API (susceptibility, terms, CPL/CTL Love numbers, collapse) at the same state', not bad, '; '.join(bad[:4]), mg.rel(),
+                   key=f'R13.6|{model}', method='abstract object graph vs interpreted functional pipeline, GF(p^2) PIT')
 
 
 # ------------------------------------------------------------------------------------------------ R13.4
